@@ -34,7 +34,7 @@ import (
 //	notify <name>                               => n<id> | none                          (one receive on the proxy's sidCh)
 //	cli <id> <k> <mapped> <assisted>            => ok | late | unknown                   (HandleClient via client transporter k of session id)
 //	report <id> <0|1>                           => unknown | <key known 0|1>#<mode>,<index>#<scores>
-//	settle                                      => live=<ids>                            (let timeouts and delayed sends happen, list sessions not stuck)
+//	settle                                      => live=<ids>                            (let every NatHoleTimeout and delayed send elapse, list sessions not stuck)
 //	stuck                                       => <ids> | -                             (sessions whose notify send can never be received)
 //	resp <id> <inr|oor>                         => V=<resps>#C0=<resps>#C1=<resps>       (everything each transporter of the session received)
 //	rangechk <id> <inr|oor>                     => same                                  (judged by the full predicate incl. port ranges)
@@ -185,6 +185,8 @@ func errClass(e string) string {
 		return "auth"
 	case strings.Contains(e, "not allowed"):
 		return "notallowed"
+	case strings.HasPrefix(e, "notify xtcp server"):
+		return "notifytimeout"
 	case strings.HasPrefix(e, "classify client nat feature error"):
 		return "cc"
 	case strings.HasPrefix(e, "classify visitor nat feature error"):
@@ -354,6 +356,7 @@ func natExec(tok []string) string {
 				if !before[x] {
 					s.sid = x
 					st.bySid[x] = s
+					st.last = time.Now() // the notify send is bounded by NatHoleTimeout from here
 					return "created"
 				}
 			}
@@ -367,8 +370,12 @@ func natExec(tok []string) string {
 		}
 		wait := 30 * time.Millisecond
 		before := map[*natSess]int{}
+		liveSids := map[string]bool{}
+		for _, x := range st.ctl.VerifSessions() {
+			liveSids[x] = true
+		}
 		for _, s := range st.sess {
-			if s.sid != "" && s.ch == ch && !s.notified {
+			if s.sid != "" && s.ch == ch && !s.notified && liveSids[s.sid] {
 				wait = 500 * time.Millisecond
 				before[s] = s.tv.count() + s.tc[0].count() + s.tc[1].count()
 			}
